@@ -23,6 +23,7 @@ import (
 	"time"
 
 	"github.com/glycerine/rbuf"
+	"github.com/honeytrap/honeytrap/utils/verifhook"
 )
 
 // SocketState defines a int type.
@@ -119,6 +120,8 @@ func (s Socket) Read(p []byte) (n int, err error) {
 	if n > 0 {
 		return
 	}
+
+	verifhook.Point("canary.socket.prewait")
 
 	// timeout
 	// close (io.EOF)
